@@ -4,6 +4,12 @@ import ast
 from .model import own_nodes, unparse
 
 
+def _ifexp_leaves(e):
+    if isinstance(e, ast.IfExp):
+        return _ifexp_leaves(e.body) + _ifexp_leaves(e.orelse)
+    return [e]
+
+
 class Defs:
     """All bindings of local names in one function."""
 
@@ -39,6 +45,12 @@ class Defs:
 
     def _bind(self, target, value, stmt, kind):
         if isinstance(target, ast.Name):
+            if kind == 'assign' and isinstance(value, ast.IfExp):
+                # a conditional expression binds either arm: same facts as the
+                # equivalent if/else statement with two assignments
+                for leaf in _ifexp_leaves(value):
+                    self.values.setdefault(target.id, []).append((kind, leaf, stmt))
+                return
             self.values.setdefault(target.id, []).append((kind, value, stmt))
         elif isinstance(target, (ast.Tuple, ast.List)):
             for i, t in enumerate(target.elts):
